@@ -1,11 +1,13 @@
-/-! Model D — `ledger.Time` (internal/time.go): RFC 3339 text, microsecond rounding, zone retention.
+/-! Model D — `ledger.Time` (internal/time.go): RFC 3339 text, microsecond rounding, normalisation to UTC.
 
 A Go `time.Time` is an instant plus a location.  What the log encoding can observe of it is the civil
 reading in its own zone plus the zone offset, so that is the representation here: `parseRaw` stores the
 fields it reads verbatim (`time.Parse` builds `Date(y,m,d,h,mi,s,ns,UTC)`, subtracts the offset and attaches
 `FixedZone(offset)` — the reading in that zone is the text again) and `format` prints them.  Calendar
-arithmetic is only needed where Go does arithmetic on the instant: the carry of `Round(Microsecond)` and
-`UTC()`; both are the identity on the well-formed times of the round-trip theorems.
+arithmetic is needed where Go does arithmetic on the instant: the carry of `Round(Microsecond)` and `UTC()`
+(`ParseTime` converts every timestamp it accepts to UTC, so a timestamp written with an offset is re-read at
+offset 0: `toUTC` = `Time.ofUnix ∘ Time.unixSec`, days ↔ civil date by `civilFromDays` / `daysFromCivil`;
+Lemmas/LogCalendar.lean proves that these are well-formed dates and inverse to each other for every day number).
 
 `time.Parse(RFC3339Nano, …)` = fast path `parseRFC3339` ∪ the generic layout parser; the union accepts strict
 RFC 3339 plus a comma as fraction separator, a one-digit hour, an offset hour of 24 and an offset minute of 60 (Go 1.23
@@ -275,24 +277,25 @@ def roundMicro (t : Time) : Time :=
 def toUTC (t : Time) : Time :=
   if t.off = 0 then t else Time.ofUnix t.unixSec t.nanos 0
 
-/-- what `ParseTime` refuses after rounding (repaired code): a year or an offset that `Format` would print in a
-form `time.Parse` cannot read (five-digit year; `±25:00`) -/
-def readable (t : Time) : Bool := t.year ≤ 9999 ∧ -90000 < t.off ∧ t.off < 90000
+/-- what `ParseTime` refuses after rounding and conversion to UTC (repaired code): a year that `Format` would print in
+a form `time.Parse` cannot read (signed: before year 0; five digits: after 9999).  Both can arise from the conversion
+(`0000-01-01T00:00:00+01:00`, `9999-12-31T23:59:59-01:00`), the second also from the rounding. -/
+def readable (t : Time) : Bool := 0 ≤ t.year ∧ t.year ≤ 9999
 
-/-- `ledger.ParseTime` (also `Time.UnmarshalJSON` once the quotes are off) -/
+/-- `ledger.ParseTime` (also `Time.UnmarshalJSON` once the quotes are off): parse, round to the microsecond, convert to
+UTC (the instant is kept, the offset the client wrote is not), refuse what could not be read back -/
 def parseTime (s : String) : Except TimeErr Time :=
   match parseRaw s.toList with
   | .error e => .error e
   | .ok t =>
-    let t' := roundMicro t
+    let t' := toUTC (roundMicro t)
     if readable t' then .ok t' else .error .unreadable
 
-/-- the times that come back unchanged: on a microsecond, fields in range, four-digit year, whole-minute offset
-below 25 hours.  (`accepted_wf` in Props/C13: everything `parseTime` accepts is of this kind.) -/
+/-- the times that come back unchanged: UTC, on a microsecond, fields in range, four-digit year.
+(`accepted_wf` in Props/C13: everything `parseTime` accepts is of this kind; so is everything `Now()` produces.) -/
 def TimeWF (t : Time) : Prop :=
   0 ≤ t.year ∧ t.year ≤ 9999 ∧ 1 ≤ t.month ∧ t.month ≤ 12 ∧ 1 ≤ t.day ∧ t.day ≤ daysIn t.month t.year ∧
-  t.hour ≤ 23 ∧ t.min ≤ 59 ∧ t.sec ≤ 59 ∧ t.nanos < 1000000000 ∧ t.nanos % 1000 = 0 ∧
-  t.off % 60 = 0 ∧ -90000 < t.off ∧ t.off < 90000
+  t.hour ≤ 23 ∧ t.min ≤ 59 ∧ t.sec ≤ 59 ∧ t.nanos < 1000000000 ∧ t.nanos % 1000 = 0 ∧ t.off = 0
 
 instance (t : Time) : Decidable (TimeWF t) := by unfold TimeWF; infer_instance
 
